@@ -303,6 +303,16 @@ def _join_c(a, b):
   return u if len(u) <= 12 else NOCONST
 
 
+def _members(v):
+  """the constants a membership test `x in v` ranges over: elements of a
+  literal tuple / list / set of constants, keys of a literal dict"""
+  if v.elts is not None and all(x.const() is not NOCONST for x in v.elts):
+    return set(x.const() for x in v.elts)
+  if v.kv is not None and v.ty == 'dict' and v.elts is None:
+    return set(v.kv)
+  return None
+
+
 def _join_fn(a, b):
   """one of finitely many known callables (a dispatch table of functions)"""
   if a is None or b is None:
@@ -1207,10 +1217,14 @@ class Engine:
       if base.kv is not None and isinstance(k, str) and k in base.kv:
         return base.kv[k]
       if base.kv and k is NOCONST and base.ty == 'dict':
-        # entry of a literal dict at an unknown key: any of its values
+        # entry of a literal dict at an unknown key: any of its values (of
+        # the values at the keys the index may still be)
+        kc = idx[0][1].c
+        keys = [x for x in base.kv if kc is NOCONST or x in kc] or \
+            list(base.kv)
         r = None
-        for x in base.kv.values():
-          r = self.join_v(r, x)
+        for x in keys:
+          r = self.join_v(r, base.kv[x])
         return r
       if base.elts is not None and isinstance(k, int) and \
               not isinstance(k, bool) and -len(base.elts) <= k < len(base.elts):
@@ -1402,9 +1416,8 @@ class Engine:
       return res if isinstance(op, ast.Eq) else not res
     if isinstance(op, (ast.In, ast.NotIn)):
       res = None
-      if r.elts is not None and all(x.const() is not NOCONST
-                                    for x in r.elts):
-        members = set(x.const() for x in r.elts)
+      members = _members(r)
+      if members is not None:
         if lc is not NOCONST:
           if lc <= members:
             res = True
@@ -2105,9 +2118,9 @@ class Engine:
             elif _hashable(k):
               st.vars[key] = lv.with_(nc=lv.nc | {k})
           return True
-        if isinstance(op, (ast.In, ast.NotIn)) and rv.elts is not None and \
-                all(x.const() is not NOCONST for x in rv.elts):
-          members = frozenset(x.const() for x in rv.elts)
+        if isinstance(op, (ast.In, ast.NotIn)) and \
+                _members(rv) is not None:
+          members = frozenset(_members(rv))
           if pos:
             if lv.c is not NOCONST:
               nc = lv.c & members
